@@ -66,6 +66,10 @@ type Case struct {
 	Which    string // valid | pending | device (challenge route: fresh device-attest-01 orders, genuine attestation)
 	Payload  string // valid | empty | emptyjson | garbage | deactivate | onlyexisting | forged (revoke: self-signed certificate with the victim's serial)
 	ProvSwap bool   // the provisioner named in the URL has been re-created under the same name with another id
+	Mount2   bool   // the request goes to the second mount point of the ACME routes, /2.0/acme
+	Legacy   bool   // through the deprecated mounting (api.NewHandler(opts).Route: context built per request from the options)
+	Pre      int    // … whose PrerequisitesChecker answers 0 (true,nil) | 1 (false,nil) | 2 an error
+	Srv      string // "" in-process router | up | reload | restart | migrate: through the real server (stage server)
 	J        JwsSpec
 }
 
@@ -77,7 +81,7 @@ func main() {
 	n := flag.Int("n", 1000, "number of generated cases")
 	out := flag.String("out", "", "output file")
 	replay := flag.String("replay", "", "file of lines carrying case=x… to re-run")
-	stage := flag.String("stage", "matrix", "matrix | shapes | routes | nonce | d15 | acctrace | legacy")
+	stage := flag.String("stage", "matrix", "matrix | shapes | routes | nonce | d15 | acctrace | legacy | server")
 	flag.Parse()
 	o, err := c.NewOut(*out)
 	if err != nil {
@@ -85,14 +89,50 @@ func main() {
 		os.Exit(2)
 	}
 	defer o.Close()
-	w, err := newWorld()
-	if err != nil {
-		fmt.Fprintln(os.Stderr, "environment:", err)
-		os.Exit(2)
+	var w *world
+	needWorld := func() {
+		if w != nil {
+			return
+		}
+		nw, err := newWorld()
+		if err != nil {
+			fmt.Fprintln(os.Stderr, "environment:", err)
+			os.Exit(2)
+		}
+		w = nw
 	}
-	defer func() { w.e.Close() }()
+	if *stage != "server" {
+		needWorld()
+	}
+	defer func() {
+		if w != nil {
+			w.e.Close()
+		}
+		closeServed()
+	}()
 	emitted := 0
 	emit := func(k *Case) {
+		if k.Srv != "" {
+			sw := servedWorld(k.Srv)
+			if sw == nil {
+				return // set-up failed: no observation
+			}
+			var line, impl string
+			func() {
+				defer func() {
+					if r := recover(); r != nil {
+						js, _ := json.Marshal(k)
+						line, impl = "req v=2 crashed case=x"+hex.EncodeToString(js), "crash"
+					}
+				}()
+				line, impl = sw.run(k)
+			}()
+			if line != "" {
+				o.Case(line, impl)
+			}
+			return
+		}
+		needWorld()
 		// order lists per account grow with every new-order case and are walked by the handlers:
 		// start over with a fresh environment now and then to stay linear
 		emitted++
@@ -174,15 +214,20 @@ func main() {
 		for _, k := range matrixCases() {
 			emit(k)
 		}
+		for _, k := range legacyCases() {
+			emit(k)
+		}
 		for i := 0; i < *n; i++ {
-			emit(genMatrix(r.Fork()))
+			rr := r.Fork()
+			emit(maybeLegacy(genMatrix(rr), rr))
 		}
 	case "shapes":
 		for _, k := range shapeCorners() {
 			emit(k)
 		}
 		for i := 0; i < *n; i++ {
-			emit(genShape(r.Fork()))
+			rr := r.Fork()
+			emit(maybeLegacy(genShape(rr), rr))
 		}
 	case "routes":
 		w.routes(o)
@@ -196,6 +241,10 @@ func main() {
 		w.acctRace(o)
 	case "legacy":
 		w.legacy(o)
+	case "server":
+		for _, k := range serverCases(*n, r) {
+			emit(k)
+		}
 	}
 	_ = context.Background
 }
